@@ -113,7 +113,7 @@ def batch(args):
             doc = {
                 'property': prop, 'invariant': final.violation['invariant'],
                 'run_seed': run_seed, 'hashseed': hashseed, 'tier': tier,
-                'swarm': swarm, 'ops': final.ops,
+                'swarm': swarm, 'ops': final.ops, 'original_ops': res.ops, 'original_swarm': res.swarm,
                 'original_len': len(res.ops), 'minimised_len': len(final.ops),
                 'replays_used': n_rep,
                 'expect': {'invariant': final.violation['invariant'],
